@@ -34,7 +34,8 @@ def run(ctx: Ctx):
     gv = GuardView(cfg)
     all_sites = result_sites(f)
     accumulated = {n.target.id for n in own_nodes(f.node) if isinstance(n, ast.AugAssign) and isinstance(n.target, ast.Name)}
-    sites = [s for s in all_sites if isinstance(s.arg("solution"), ast.Name) and isinstance(s.arg("objective"), ast.Name) and s.arg("objective").id in accumulated]
+    named = [s for s in all_sites if isinstance(s.arg("solution"), ast.Name) and isinstance(s.arg("objective"), ast.Name)]
+    sites = [s for s in named if s.arg("objective").id in accumulated] or named[-1:]
     ctx.require(len(sites) == 1, "main Result(assignment, total_cost, ..) publication not found")
     asg, obj = sites[0].arg("solution").id, sites[0].arg("objective").id
     # every other publication is the empty answer for an empty matrix: an assignment is published by the one site
